@@ -6,9 +6,9 @@ klauspost/reedsolomon (`galois.go`: `galAdd = xor`, `galMultiply = mulTable[a][b
 Multiplication is the textbook shift-and-reduce product (no tables), the inverse is `a^254`,
 `gpow a n` is repeated multiplication (`galExp`: `a^0 = 1`, `0^n = 0` for `n > 0`).
 
-Nothing here is *proved* to be a field; the tie to klauspost's tables is the byte-exact
-correspondence of every parity shard / reconstruction the harness runs, plus the `decide`d
-spot checks at the end of this file.
+That these operations form a field is proved in `Lemmas/GF256Field` (not here: this file is core
+only); the tie to klauspost's tables is the byte-exact correspondence of every parity shard /
+reconstruction the harness runs, plus the `decide`d spot checks at the end of this file.
 -/
 namespace KcpVerif.GF256
 
